@@ -91,6 +91,64 @@ def lemmas(run):
     return f
 
 
+def tier_b(run, thorough):
+    """engine B: the real extract_variances (with the real pairwise_contrast and _correct_1d) on SYMBOLIC variance vectors /
+    covariance matrices: for all real entries, per-model variance = diagonal, pair (i<j) variance = var_i + var_j - 2 cov_ij in
+    pairwise_contrast order, model-vs-ceiling variance = var_i + var_nc - 2 cov_{i,nc}, each times n/(n-1) (n the smaller count)"""
+    import itertools
+    import numpy as np
+    import sympy as sp
+    from vf.symrun.core import symarray, patched_np, identical, OVERRIDES_USED, guard
+    import rsatoolbox.util.inference_util as iu
+    fails = []
+    n_eval = 0
+    sizes = (2, 3, 4, 5) if thorough else (2, 3, 4)
+    for m in sizes:
+        for nc in (True, False):
+            for kind in ('vector', 'matrix'):
+                for counts in ((None, None), (7, None), (None, 5), (7, 5), (4, 9)):
+                    tag = f'[{kind},models={m},nc_included={nc},n_rdm={counts[0]},n_pattern={counts[1]}]'
+                    nm = f'C06/extract_variances/B/contrasts-of-the-stored-covariance{tag}'
+                    with guard(run, nm):
+                        k = m + (2 if nc else 0)
+                        if kind == 'vector':
+                            var = symarray('v', k)
+                            cov = np.diag(var)
+                        else:
+                            low = symarray('c', (k, k))
+                            cov = np.array([[low[max(a, b), min(a, b)] for b in range(k)] for a in range(k)], dtype=object)
+                            var = cov
+                        with patched_np(['rsatoolbox.util.inference_util', 'rsatoolbox.util.matrix']):
+                            mv, dv, ncv = iu.extract_variances(var.copy(), nc, n_rdm=counts[0], n_pattern=counts[1])
+                        ns = [c for c in counts if c is not None]
+                        fac = sp.Rational(min(ns), min(ns) - 1) if ns else sp.Integer(1)
+                        want_m = np.array([fac * cov[a, a] for a in range(m)], dtype=object)
+                        pairs = list(itertools.combinations(range(m), 2))
+                        want_d = np.array([fac * (cov[a, a] + cov[b, b] - 2 * cov[a, b]) for a, b in pairs], dtype=object)
+                        if nc:
+                            want_n = np.array([[fac * (cov[a, a] + cov[m + q, m + q] - 2 * cov[a, m + q]) for q in (0, 1)]
+                                               for a in range(m)], dtype=object)
+                        else:
+                            want_n = np.array([[fac * cov[a, a]] * 2 for a in range(m)], dtype=object)
+                        bad = None
+                        for what, got, want in (('model variances', mv, want_m), ('pairwise-difference variances', dv, want_d),
+                                                ('model-vs-ceiling variances', ncv, want_n)):
+                            ok, idx, diff = identical(np.asarray(got, dtype=object), want)
+                            if not ok:
+                                bad = f'{what}: differs at {idx}: {str(diff)[:200]}'
+                                break
+                        n_eval += 1
+                        run.obligation(nm, 'proved' if bad is None else 'refuted', 'sympy-normal-form', 0.0,
+                                       detail=bad or 'diag / var_i+var_j-2cov_ij / var_i+var_nc-2cov_i,nc times n/(n-1), all real entries')
+                        if bad:
+                            fails.append((nm, 'extract_variances', dict(case=tag, what=bad)))
+    for o in sorted(OVERRIDES_USED):
+        run.trust('engine B proxy override: ' + o)
+    run.bounded_check('C06/B/contrasts', 'B', 'ALL REAL (co)variance entries; %s models, with / without ceiling columns, vector / symmetric '
+                      'matrix input, 5 count settings' % (sizes,), n_eval, n_eval, exhaustive=False, failures=len(fails))
+    return fails
+
+
 def run(run):
     E = new_engine(run)
     fails = lemmas(run)
@@ -98,6 +156,9 @@ def run(run):
         for ck in gen(run, E):
             fails += ck.failed
     finish_engine(E, run)
+    for nm, fn, detail in tier_b(run, run.tier == 'thorough'):
+        run.violation(nm, 'all-real-entries', dict(obligation=nm, detail=detail), found_input=False,
+                      what='engine-B identity refuted: ' + str(detail.get('what'))[:200])
     run.trust('scipy.stats.t.cdf: monotone, range [0,1], cdf(0)=1/2 (assumed contract of the dependency)')
     finish(run, fails, 'C06')
     run.explanation = ('engine A + z3 NRA: dual-bootstrap bounds and 1-D correction factor on the real code for all real variances and '
